@@ -13,6 +13,11 @@ FailingCli == {"cli_query_missing_file", "cli_dist_bad_params", "cli_query_forei
 LibCmds == {"lib_load", "lib_edit", "lib_add", "lib_delete", "lib_flush", "lib_commit", "lib_begin_block", "lib_rollback",
             "lib_query", "lib_close", "lib_read_sigs", "lib_other_rw_reader", "lib_other_ro_reader", "lib_tree_walk",
             "lib_bulk_update", "lib_execute_update", "lib_load_ctx", "lib_load_ctx_engine_first", "lib_other_sigfile_rw"}
+\* "lib_begin_nested": session.begin_nested() opens a SAVEPOINT (with SQLite's driver the savepoint is the outermost database
+\* transaction); commit is still refused and close still discards statement-level writes made inside it.  It is NOT in the generator's
+\* alphabet: what rollback() does to the enclosing levels depends on the ORM version (1.4 legacy sessions roll back one level only),
+\* which this specification does not model; it appears in hand-picked histories that end the savepoint with close.
+ExtraCmds == {"lib_begin_nested"}
 \* "lib_other_sigfile_rw": some other code in the same process opens ANOTHER signature file for update (load_signatures(path, mode='r+')),
 \* uses and closes it; it must not change how the database's own signature file is opened afterwards
 \* the ways of obtaining the default session: ReferenceDatabase.load_from_dir, and the command line's context object
